@@ -34,6 +34,9 @@ ITEM_SETS = [
     [0x5A, 0x416, 0xD7, 0xFB01],        # Z  Ж  ×  ﬁ
     [0x21, 0x447, 0x401, 0x5D0],        # !  ч  Ё  א
     [0x7D, 0x42E, 0xFF21, 0x391],       # }  Ю  fullwidth A  Greek Alpha (look-alikes of 'A')
+    [0x41, 0x44F, 0x1F600, 0x10000],    # A  я  😀  Linear B syllable: characters beyond the BMP
+    [0x7E, 0x42A, 0x10FFFF, 0xE9],      # ~  Ъ  the last code point  é (an astral character before / after a BMP one)
+    [0x20, 0x44E, 0xFFFF, 0x1D11E],     # space  ю  the last BMP code point  musical G clef (the first beyond it: U+10000 above)
 ]
 SIM_ITEMS = [0x41, 0x7E, 0x20, 0x44F, 0x42A, 0xE9, 0x4E2D, 0x391]
 
@@ -195,7 +198,9 @@ def check_string(rec):
         srcs.append((f".word '{s}\n", struct.pack("<H", rec["word"])))
     if len(s) == 2:
         srcs.append((f'.word "{s}\n', struct.pack("<H", rec["word"])))
-    for src, w in srcs:
+    # every source is assembled twice in this process: the refusal of a character is a fact about the character, not about the
+    # first time it is met
+    for src, w in [x for x in srcs for _ in (0, 1)]:
         r = asm([("s.mac", src)], timeout=5)
         if rec["ok"]:
             if not (r["outcome"] == "ok" and r["code"] == w):
@@ -220,7 +225,7 @@ def main(run):
 
     # the committed KOI8-R table must still be Python's koi8_r
     invs = ["ScanOK", "RoundTripFixed", "ExportString", "ExportTable"]
-    sets = ITEM_SETS if thorough else ITEM_SETS[:3]
+    sets = ITEM_SETS if thorough else ITEM_SETS[:2] + ITEM_SETS[-3:]       # the last three: beyond the BMP
     k = run.seed % len(ITEM_SETS)
     if not thorough and ITEM_SETS[k] not in sets:
         sets = sets + [ITEM_SETS[k]]
